@@ -10,14 +10,21 @@ ID = 'C11'
 PROPS_V = 'C11/Props.v'
 LEVEL = 'proof'
 TRUSTED = [
-    'translate/c11.py: ast extraction of the threshold/index arithmetic of combine1fiber (EPS, default factors, grouping '
-    'comparison and slice, minimum group size, inside bounds, smask threshold, bad-region test, growth offsets) into '
+    'translate/c11.py: ast extraction of the threshold/index arithmetic and stage control of combine1fiber (EPS, default factors, '
+    'grouping comparison and slice, minimum group size, inside bounds, smask threshold, bad-region test, growth offsets; round 5: '
+    'the ngood == 0 branch, the all-coefficients-zero test, the per-exposure inbetween range, the interpolands of the variance '
+    'path, the objivar.ndim > 1 test and the median width, the keywords of the two iterfit calls and the defaults of iterfit(), '
+    'the early return / damping length / taper conditions of aesthetics(), the de-redshifting call of preprocess_spectra) into '
     'coq/Generated/Combine1fiber.v; Props.v proves the hand-written model uses exactly these (C11_generated_*)',
     'hand-written model coq/C11/Model.v (grouping, per-group evaluation/newmask, np.interp inverse-variance path with the '
-    '1-EPS mask test, running-median weights for stacks, +-2 growth, aesthetics from C17.Model) on top of coq/BSpline -- tied '
-    'to combine1fiber by the correspondence run only',
-    'the per-group iterfit results (breakpoints, breakpoint mask, coefficients, rejection mask) are RECORDED from the '
-    'implementation by wrapping spec2d.iterfit and fed to the model; iterfit itself is the subject of C10 (and C08/C09)',
+    '1-EPS mask test, running-median weights for 2-D input, +-2 growth, aesthetics incl. damp with the taper as a parameter) on '
+    'top of coq/BSpline -- tied to combine1fiber by the correspondence run only',
+    'large calls: the per-group iterfit results (breakpoints, breakpoint mask, coefficients, rejection mask) are RECORDED from the '
+    'implementation by wrapping spec2d.iterfit and fed to the model; small calls (<= 48 input pixels) are ALSO replayed with the '
+    'fits computed by the model (CChain: default weights, C08 knots, the requiren walk, C10 fit/reject loop; only numpy argsort '
+    'is taken from the run); iterfit itself is the subject of C10 (and C08/C09)',
+    "aesthetics='damp': scipy.special.erf evaluated by the harness (float32 pipeline of the source expression) supplies the "
+    'table that instantiates the abstract taper of the model',
     'harness glue in harness/impl/c11_impl.py re-deriving the grouping to attach recorded fits to groups (cross-checked: the '
     'model recomputes the grouping and fullcombmask and must agree)',
     'harness/impl/c11_maskbits.par: SPPIXMASK bit table loaded instead of the network download (values never reach the outputs)',
@@ -29,12 +36,17 @@ ASSUMPTIONS = [
     'input and output grids increasing; dyadic pixel sizes in the generated cases so that the `> maxsep` grouping decisions and '
     'the EPS windows are not decided by rounding; output pixels are not placed within 2^-23 of a pixel width beside a good '
     'pixel next to a bad one (there the code deliberately keeps the variance: the exact theorem states that window)',
-    'inverse variances are either 0 or well above float32 eps (the growth test is |smooth| < EPS, not == 0)',
-    "aesthetics='damp' (erf) is exercised by the direct checks only, not modelled",
-    'finalmask/indisp/skyflux keyword paths (andmask/ormask/newdisp/newsky) are outside the property',
+    'the output grid has at least one pixel (an EMPTY grid raises IndexError in code that only serves the never-returned '
+    'andmask: observed in stats.empty_output_grid, fix proposed in fixes/C11-empty-output-grid.diff); a one-pixel INPUT needs '
+    'binsz= (the pixel size is otherwise taken from the first two pixels); preprocess_spectra needs two output pixels for the same reason',
+    'the chain replay is used when no decision of the knot placement hinges on float rounding (number of breakpoints agrees, no '
+    'pixel within 1e-9 pixel of an inexactly representable breakpoint) and declines (counted) when a group has more '
+    'coefficients than pixels (no unique exact solution; the code then returns what its Cholesky solve happens to give)',
+    'finalmask/indisp/skyflux keyword paths (andmask/ormask/newdisp/newsky are never returned) are outside the property',
     'the theorems about a constant spectrum and about rescaling are stated for fits that reproduce constants / scale with the '
-    'data; that the C10 model fit does so is proved for the certified solver (C11/Proofs.v), requiren is modelled only through '
-    'the recorded breakpoint mask',
+    'data; that the C10 model fit does so is proved for the certified solver (C11/ProofsFit.v)',
+    'nord=1 is not exercised: iterfit(requiren=1) indexes past the breakpoints for nord=1 (IndexError inside bspline.py, the '
+    'subject of C08-C10)',
 ]
 
 def translate(ctx):
@@ -52,7 +64,7 @@ def translate(ctx):
 HEADER = '''From Coq Require Import QArith ZArith List. Import ListNotations.
 From PV Require Import BSpline.Eval C11.Model. Open Scope Q_scope.'''
 
-METHODS = {'traditional': 'Traditional', 'noconst': 'Noconst', 'mean': 'Mean', 'nothing': 'Nothing'}
+METHODS = {'traditional': 'Traditional', 'noconst': 'Noconst', 'mean': 'Mean', 'nothing': 'Nothing', 'damp': 'Traditional'}   # damp: CDamp ignores the field
 
 
 def ql(v):
@@ -248,6 +260,126 @@ def gen_stack_noivar(rng, idx):
             'extras': {'scale': [1e-17, 2.0 ** -56, 1e-8, 1e4][idx % 4]}, 'level': a}
 
 
+def gen_degenerate(rng, idx):
+    """degenerate sizes: output grids of 1, 2, 3 pixels (inside, at the edge, beside a bad run, outside the data), input
+    spectra of 2 .. 9 pixels, one .. four good pixels, groups of 1 .. 4 pixels between bad runs, everything masked, the grid
+    entirely outside the data, nord against the number of pixels, one stacked exposure of exactly 101 good pixels"""
+    sub = ['tiny-out', 'tiny-in', 'few-good', 'all-masked', 'outside', 'nord', 'tiny-out', 'tiny-in', 'small-groups',
+           'one-exposure', 'wide-bkpt', 'tiny-in-tiny-out'][idx % 12]
+    method = ['traditional', 'mean', 'damp', 'nothing', 'noconst'][(idx // 2) % 5]
+    l0 = 3.5 + DL * rng.randint(0, 16)
+    with_ivar = idx % 4 != 3
+    kwargs = {'aesthetics': method}
+    shape = 'single'
+    const = idx % 5 == 1
+    level = C.dyadic(rng, 0.5, 4, 3)
+
+    def fluxes(n):
+        if const:
+            return [level] * n
+        a, b = rng.randint(-4, 4) / 16.0, rng.randint(-2, 2) / 64.0
+        return [level + a * i + b * i * i + (rng.randint(-1, 1) / 32.0 if idx % 3 == 0 else 0.0) for i in range(n)]
+
+    def tiny_grid(n, m):
+        where = rng.choice(['inside', 'inside', 'low-edge', 'high-edge', 'on-pixels', 'straddle-low', 'beyond'])
+        fr = rng.choice([0.25, 0.5, 0.3125, 0.75])
+        step = rng.choice([1.0, 1.0, 0.5, 2.0, 1.5])
+        if where == 'inside':
+            st = rng.randint(0, max(0, n - 2)) + fr
+        elif where == 'low-edge':
+            st = 0.0
+        elif where == 'high-edge':
+            st = (n - 1) - step * (m - 1)
+        elif where == 'on-pixels':
+            st, step = float(rng.randint(0, max(0, n - m))), 1.0
+        elif where == 'straddle-low':
+            st = -step * (m - 1) / 2.0 - fr
+        else:
+            st = n - 1 + fr
+        return [l0 + DL * (st + step * i) for i in range(m)], where
+
+    where = sub
+    if sub == 'tiny-out':
+        n = rng.randint(8, 24)
+        m = [1, 2, 3, 1, 2, 3, 4][(idx // 12) % 7]
+        bad = zero_runs(rng, n, rng.choice([0, 0, 1]))
+        new, where = tiny_grid(n, m)
+    elif sub in ('tiny-in', 'tiny-in-tiny-out'):
+        n = [2, 3, 4, 5, 6, 7, 8, 9, 3, 4][(idx // 12) % 10]
+        m = rng.choice([1, 2, 3]) if sub == 'tiny-in-tiny-out' else rng.choice([1, 2, 3, 5, 2 * n, 2 * n + 3])
+        bad = [False] * n
+        if n >= 4 and rng.random() < 0.3:
+            bad[rng.randrange(n)] = True
+        new, where = tiny_grid(n, m)
+        if m > 3:
+            new = [l0 + DL * (0.5 * i - 1.25) for i in range(m)]
+    elif sub == 'few-good':
+        n = rng.randint(10, 24)
+        g = [1, 2, 3, 4][(idx // 12) % 4]
+        st = rng.randint(0, n - g)
+        bad = [not (st <= i < st + g) for i in range(n)]
+        new = out_grid(rng, n, l0, rng.choice(['same', 'shift', 'wider'])) if rng.random() < 0.6 else tiny_grid(n, rng.randint(1, 3))[0]
+    elif sub == 'small-groups':
+        n = rng.randint(20, 36)
+        bad, i = [], 0
+        while len(bad) < n:                      # groups of 1 .. 5 good pixels separated by bad runs of 1 .. 4 pixels
+            bad += [False] * rng.randint(1, 5) + [True] * rng.randint(1, 4)
+        bad = bad[:n]
+        new = out_grid(rng, n, l0, rng.choice(['same', 'shift', 'wider', 'finer']))
+    elif sub == 'all-masked':
+        n = rng.randint(2, 16)
+        bad = [True] * n
+        with_ivar = True
+        new = tiny_grid(n, rng.choice([1, 2, 3, 10]))[0]
+    elif sub == 'outside':
+        n = rng.randint(6, 20)
+        bad = zero_runs(rng, n, rng.choice([0, 1]))
+        m = rng.choice([1, 2, 3, 7])
+        off = rng.choice([-(m + 3), n + 2, -(m - 1) - 0.5, n - 1 + 0.5])
+        new = [l0 + DL * (off + i) for i in range(m)]
+    elif sub == 'wide-bkpt':
+        # explicit (dyadic) breakpoint spacing of 2.5 / 4 pixels and one or two strong outliers: the fit cannot follow them,
+        # so the rejection loop of iterfit runs (several passes) on a group small enough for the exact chain model
+        kwargs['bkptbin'] = DL * [2.5, 4.0, 3.0][(idx // 12) % 3]
+        if idx % 24 >= 12:
+            kwargs['maxsep'] = DL * 3.0
+        n = rng.randint(14, 30)
+        bad = zero_runs(rng, n, rng.choice([0, 0, 1]))
+        new = out_grid(rng, n, l0, rng.choice(['same', 'shift', 'wider', 'finer']))
+    elif sub == 'nord':
+        kwargs['nord'] = [2, 4, 5, 2, 4][(idx // 12) % 5]
+        n = rng.choice([3, 4, 5, 6, 8, 12])
+        bad = [False] * n
+        new = out_grid(rng, n, l0, rng.choice(['same', 'shift', 'finer'])) if n > 3 else [l0 + DL * (0.5 + i) for i in range(n)]
+    else:                                        # one stacked exposure (2-D input with a single row), 101 .. 104 good pixels
+        shape = 'stack'
+        n = rng.randint(101, 108)
+        bad = [False] * n
+        for i in rng.sample(range(n), n - rng.randint(101, min(n, 104))):
+            bad[i] = True
+        with_ivar = True
+        new = out_grid(rng, n, l0, rng.choice(['same', 'shift', 'wider'])) if idx % 2 else tiny_grid(n, rng.randint(1, 3))[0]
+    inl = [l0 + DL * i for i in range(n)]
+    flux = fluxes(n)
+    ivar = None
+    if with_ivar:
+        base = rng.choice([1.0, 4.0, 16.0])
+        ivar = [0.0 if b else base * rng.choice([1.0, 1.0, 0.5, 2.0]) for b in bad]
+    if sub == 'wide-bkpt' and ivar is not None:
+        for _ in range(rng.randint(1, 2)):
+            j = rng.randrange(2, n - 2)
+            if ivar[j] > 0:
+                flux[j] += rng.choice([-1, 1]) * rng.choice([30.0, 60.0]) / math.sqrt(ivar[j])
+    elif sub == 'wide-bkpt':
+        flux[rng.randrange(2, n - 2)] += rng.choice([6.0, 9.0, -7.0])
+    call = {'f': 'combine', 'shape': shape, 'kind': 'degenerate-const' if const else 'degenerate', 'variant': 'deg-' + sub,
+            'where': where, 'inloglam': inl, 'flux': flux, 'ivar': ivar, 'newloglam': new, 'kwargs': kwargs,
+            'extras': {'scale': rng.choice([2.0, 0.5, 1e-17, 1e4])} if idx % 3 == 1 else {}, 'level': level}
+    if shape == 'stack':
+        call['inloglam'], call['flux'], call['ivar'] = [inl], [flux], [ivar]
+    return call
+
+
 def gen_preprocess(rng, idx):
     nobj = rng.randint(1, 3)
     n = rng.randint(110, 160)
@@ -276,6 +408,10 @@ def gen_preprocess(rng, idx):
             newloglam = [l0 + DL * (i - 12 + fr) for i in range(n)]
             centre = [rng.randint(60, n - 45) for _ in range(nobj)]
             flux = [[1.0 + 2.0 * math.exp(-0.5 * ((i - c) / 3.0) ** 2) for i in range(n)] for c in centre]
+    if idx % 8 == 4:
+        # output grid with a DIFFERENT pixel size (2 or 1.5 input pixels): binsz must be the output grid's
+        st = [2.0, 1.5][(idx // 8) % 2]
+        newloglam = [l0 + DL * (st * i - 100) for i in range(int((n + 140) / st))]
     return {'f': 'preprocess', 'flux': flux, 'ivar': ivar, 'loglam': loglam, 'zfit': z, 'newloglam': newloglam,
             'aesthetics': rng.choice(['mean', 'traditional']), 'centre': centre}
 
@@ -296,15 +432,87 @@ def fit_term(r):
     return '(Some (mkGfit %s %s %s %s))' % (ql(r['bk']), bl(r['bkmask']), ql(r['coeff']), bl(r['bmask']))
 
 
-def case_term(c, r):
+def damp_table(newivar):
+    """the half error function 0.5*(1+erf(x)) at the arguments aesthetics(method='damp') needs, computed here with
+    scipy in the float32 arithmetic of the source expression (`pixels = np.arange(nflux, dtype='f')`), keyed by the EXACT
+    rational argument the model computes"""
+    import numpy as np
+    from fractions import Fraction
+    from scipy.special import erf
+    n = len(newivar)
+    good = [i for i, v in enumerate(newivar) if v != 0]
+    if not good or len(good) == n:
+        return []
+    mingood, maxgood = good[0], good[-1]
+    pixels = np.arange(n, dtype='f')
+    tbl = {}
+    if mingood > 0:
+        d = min(mingood, 250)
+        vals = 0.5 * (1.0 + erf((pixels - mingood) / float(d)))
+        for i in range(n):
+            tbl[Fraction(i - mingood, d)] = Fraction(float(vals[i]))
+    if maxgood < n - 1 and maxgood > 0:
+        d = min(maxgood, 250)
+        vals = 0.5 * (1.0 + erf((maxgood - pixels) / float(d)))
+        for i in range(n):
+            tbl[Fraction(maxgood - i, d)] = Fraction(float(vals[i]))
+    return sorted(tbl.items())
+
+
+def chain_eligible(c, r):
+    """may this call be replayed with the fits COMPUTED by the model (CChain)?  Small inputs only (exact dense solves), and
+    no decision of the knot placement / interval walk may hinge on float rounding: the number of breakpoints must agree
+    and no input or output pixel may lie within 1e-9 pixel of a breakpoint that is not exactly representable."""
+    from fractions import Fraction
+    import math
+    inl = flat(c['inloglam'])
+    if len(inl) > 48 or c['shape'] == 'stack' or 'glue_error' in r or c.get('flux_dtype') or c.get('ivar_dtype'):
+        return False
+    k = int(c['kwargs'].get('nord', 3))
+    bks = Fraction(r['bkptbin'])
+    # the groups, as the harness glue derived them
+    pos = 0
+    iv = flat(c['ivar'])
+    for f in r['fits']:
+        if f is None:
+            continue
+        if not f['coeff_finite'] or f['nord'] != k:
+            return False
+        fb = [Fraction(b) for b in f['bk']]
+        lo, hi = fb[k - 1], fb[len(fb) - k]
+        xs = [Fraction(x) for x in inl if lo <= Fraction(x) <= hi]
+        if not xs or min(xs) != lo or max(xs) != hi:
+            return False
+        rng_ = hi - lo
+        nb = max(2, math.floor(rng_ / bks) + 1)
+        if nb + 2 * (k - 1) != len(fb):
+            return False
+        sp = rng_ / (nb - 1)
+        tol = Fraction(DL) / 10 ** 9
+        for i in range(nb):
+            e = lo + i * sp
+            if fb[k - 1 + i] != e and any(abs(Fraction(x) - e) < tol for x in inl + c['newloglam']):
+                return False
+    return True
+
+
+def case_term(c, r, mode='recorded'):
     inl = flat(c['inloglam'])
     nspec = len(c['inloglam']) if c['shape'] == 'stack' else 1
     ncol = len(inl) // nspec
     specnum = [i // ncol for i in range(len(inl))]
     iv = flat(c['ivar'])
-    cin = '(mkCin %s %s %s %s %d%%nat %s %s 3%%nat %s %s)' % (
+    cin = '(mkCin %s %s %s %s %d%%nat %s %s %d%%nat %s %s %s)' % (
         ql(inl), ql(flat(c['flux'])), 'None' if iv is None else '(Some %s)' % ql(iv), nl(specnum), nspec,
-        ql(c['newloglam']), C.qlit(r['maxsep']), METHODS[c['kwargs']['aesthetics']], nl(r['isort']))
+        ql(c['newloglam']), C.qlit(r['maxsep']), int(c['kwargs'].get('nord', 3)), METHODS[c['kwargs']['aesthetics']],
+        nl(r['isort']), C.boollit(c['shape'] == 'stack'))
+    if mode == 'chain':
+        return '(CChain %s %s %s %s %s)' % (cin, C.qlit(r['bkptbin']), bl(r['fullcomb']), ql(r['newflux']), ql(r['newivar']))
+    if c['kwargs']['aesthetics'] == 'damp':
+        tbl = damp_table(r['newivar'])
+        return '(CDamp %s %s %s %s %s %s)' % (cin, C.coq_list([fit_term(f) for f in r['fits']]), bl(r['fullcomb']),
+                                              C.coq_list(['(%s, %s)' % (C.qlit(a), C.qlit(b)) for a, b in tbl]),
+                                              ql(r['newflux']), ql(r['newivar']))
     if 'pre_ivar' in r and 'pre_flux' in r:
         return '(CStage %s %s %s %s %s %s %s)' % (cin, C.coq_list([fit_term(f) for f in r['fits']]), bl(r['fullcomb']),
                                                  ql(r['pre_flux']), ql(r['pre_ivar']), ql(r['newflux']), ql(r['newivar']))
@@ -333,7 +541,13 @@ def correspond(ctx, proof_ok=True):
     calls += [gen_const_noivar(rng, i) for i in range(ctx.n(12, 60))]
     calls += [gen_stack(rng, i) for i in range(ctx.n(12, 100))]
     calls += [gen_stack_noivar(rng, i) for i in range(ctx.n(4, 24))]
+    calls += [gen_degenerate(rng, i) for i in range(ctx.n(72, 480))]
     calls += [gen_preprocess(rng, i) for i in range(ctx.n(8, 40))]
+    calls.append({'f': 'probe-empty', 'variant': 'deg-probe-empty', 'inloglam': [3.5 + DL * i for i in range(12)],
+                  'flux': [1.0 + 0.125 * i for i in range(12)], 'ivar': [4.0] * 12})
+    only = os.environ.get('C11_FAMILIES')        # development aid: restrict the run to some families
+    if only:
+        calls = [c for c in calls if any(t in (c.get('variant') or c['f']) for t in only.split(','))]
     nb = 8
     outs = C.run_impl_parallel('c11_impl.py', [calls[i::nb] for i in range(nb)])
     results = [None] * len(calls)
@@ -358,6 +572,9 @@ def correspond(ctx, proof_ok=True):
 
     terms, owners = [], []
     for i, (c, r) in enumerate(zip(calls, results)):
+        if c['f'] == 'probe-empty':
+            stats['empty_output_grid'] = r.get('outcome')       # observed, not judged
+            continue
         if c['f'] == 'preprocess':
             key = 'preprocess:%s' % (r.get('err') or 'ok')
             dist[key] = dist.get(key, 0) + 1
@@ -386,11 +603,12 @@ def correspond(ctx, proof_ok=True):
                 win = [p for p in range(max(0, peak - 9), min(n_new, peak + 10)) if r['ivar'][k][p] > 0]
                 wsum = sum(r['flux'][k][p] - 1.0 for p in win)
                 cen = sum((r['flux'][k][p] - 1.0) * c['newloglam'][p] for p in win) / wsum if wsum > 0.5 else None
-                if cen is not None and len(win) == 19 and abs(cen - want) > 0.1 * DL:
+                step = c['newloglam'][1] - c['newloglam'][0]
+                if cen is not None and len(win) == 19 and step == DL and abs(cen - want) > 0.1 * DL:
                     viol('C11:preprocess_spectra:feature-not-shifted',
                          'the centroid of a narrow feature at log-wavelength L is %.2f pixels away from L - log10(1+z)' % (
                              (cen - want) / DL), c, r)
-                if abs(c['newloglam'][peak] - want) > 1.01 * DL:
+                if abs(c['newloglam'][peak] - want) > 1.01 * max(step, DL):
                     viol('C11:preprocess_spectra:feature-not-shifted',
                          'a feature at log-wavelength L does not appear at L - log10(1+z) (off by %.2f pixels)' % (
                              (c['newloglam'][peak] - want) / DL), c, r)
@@ -423,6 +641,27 @@ def correspond(ctx, proof_ok=True):
             viol('C11:harness:glue', r['glue_error'], c, r, failing=False)
             continue
         stats['groups'] += len(r['fits'])
+        # branch coverage of the model
+        br = stats.setdefault('branches', {})
+        def hit(k, n=1):
+            if n:
+                br[k] = br.get(k, 0) + n
+        hit('no_good_pixel', 1 if (c.get('ivar') is not None and max(flat(c['ivar'])) == 0) else 0)
+        hit('group_le_2_pixels', sum(1 for f in r['fits'] if f is None))
+        hit('fit_all_coefficients_zero', sum(1 for f in r['fits'] if f and not any(f['coeff'])))
+        hit('fit_used', sum(1 for f in r['fits'] if f and any(f['coeff'])))
+        hit('breakpoints_masked_beyond_the_last', sum(1 for f in r['fits'] if f and f['bkmask'].count(False) > 1))
+        hit('pixels_rejected_by_fit', sum(1 for f in r['fits'] if f and any(f['coeff']) and not all(f['bmask'])))
+        hit('growth_fired', 1 if ('pre_ivar' in r and r['pre_ivar'] != r['newivar']) else 0)
+        hit('stacked_median_weights', 1 if c['shape'] == 'stack' and c.get('ivar') is not None else 0)
+        hit('no_objivar', 1 if c.get('ivar') is None else 0)
+        hit('output_all_without_variance', 1 if not any(v > 0 for v in r['newivar']) else 0)
+        hit('output_grid_lt_3_pixels', 1 if len(c['newloglam']) < 3 else 0)
+        if c['kwargs']['aesthetics'] == 'damp' and any(v > 0 for v in r['newivar']):
+            g = [k for k, v in enumerate(r['newivar']) if v != 0]
+            hit('damp_taper_low', 1 if g[0] > 0 else 0)
+            hit('damp_taper_high', 1 if g[-1] < len(r['newivar']) - 1 else 0)
+        hit('aesthetics_' + c['kwargs']['aesthetics'])
         stats['rejected_pixels'] += sum(1 for f in r['fits'] if f for b in f['bmask'] if not b)
         nf, ni = r['newflux'], r['newivar']
         good_out = [v > 0 for v in ni]
@@ -433,13 +672,14 @@ def correspond(ctx, proof_ok=True):
         if c['shape'] == 'single' and c['kind'] in ('const', 'smooth') and (iv_in is None or min(iv_in) > 0):
             step_out = abs(c['newloglam'][1] - c['newloglam'][0]) if n_new > 1 else 0.0
             lo_in, hi_in = fl_in[3] + 3 * step_out, fl_in[-4] - 3 * step_out     # the growth reaches 2 OUTPUT pixels
+            # (the generators of these kinds make at least 60 input pixels)
             lost = [k for k in range(n_new) if lo_in <= c['newloglam'][k] <= hi_in and not good_out[k]]
             if lost:
                 viol('C11:combine1fiber:%s:good-input-lost' % var,
                      'all input pixels are good and smooth, yet %d output pixels well inside the input range have no inverse '
                      'variance (first: %d)' % (len(lost), lost[0]), c, r)
         # constant spectrum stays constant
-        if c['kind'] == 'const':
+        if c['kind'] in ('const', 'degenerate-const'):
             stats['const_checks'] += 1
             lvl = c['level']
             meth = c['kwargs']['aesthetics']
@@ -481,13 +721,28 @@ def correspond(ctx, proof_ok=True):
                          % (s, lost), c, r,
                          extra={'meaning': 'scaling flux by c and inverse variance by 1/c^2 must scale newflux by c and newivar by 1/c^2'})
         if c['kwargs']['aesthetics'] == 'damp':
-            stats['damp'] += 1          # erf: not modelled; covered by the direct checks above only
-            continue
+            stats['damp'] += 1          # the taper enters the model as a table of scipy erf values (CDamp)
         terms.append(case_term(c, r))
         owners.append(i)
+        if chain_eligible(c, r) and c['kwargs']['aesthetics'] != 'damp':
+            stats['chain_cases'] = stats.get('chain_cases', 0) + 1
+            stats['chain_with_variance'] = stats.get('chain_with_variance', 0) + (1 if any(good_out) else 0)
+            stats['chain_rejected_pixels'] = stats.get('chain_rejected_pixels', 0) + sum(
+                1 for f in r['fits'] if f for b in f['bmask'] if not b)
+            terms.append(case_term(c, r, mode='chain'))
+            owners.append(i)
 
+    # big calls one per coqc process, the small (degenerate) ones twelve per process
     cc = C.CoqCases(ctx.work, HEADER, 'run_cases', shard=1)
-    verdicts = cc.run(terms) if terms else []
+    cc_small = C.CoqCases(ctx.work, HEADER, 'run_cases', shard=12)
+    small = [j for j, i in enumerate(owners) if len(flat(calls[i]['inloglam'])) <= 48 and len(calls[i]['newloglam']) <= 100]
+    big = [j for j in range(len(terms)) if j not in set(small)]
+    verdicts = [None] * len(terms)
+    for idxs, runner, tag in ((big, cc, 'cases'), (small, cc_small, 'small')):
+        if idxs:
+            for j, v in zip(idxs, runner.run([terms[j] for j in idxs], tag=tag)):
+                verdicts[j] = v
+    cc.coq_seconds += cc_small.coq_seconds
     ctx.coverage.update({
         'evaluations': sum(len(calls[i]['newloglam']) for i in owners),
         'distinct_nontrivial': len(set(terms)),
@@ -496,6 +751,7 @@ def correspond(ctx, proof_ok=True):
                 'interpolation/local-max law); distinct = distinct calls; direct checks on the real code (constant, scaling, same '
                 'grid, preprocess shift) are counted in stats',
         'calls': len(calls), 'cases_by_variant_outcome': dist, 'stats': stats, 'coq_eval_s': round(cc.coq_seconds, 1),
+        'chain_declined': sum(1 for v in verdicts if v & 4),
         'model_disagreements': sum(1 for v in verdicts if v & 1),
         'spec_violations': sum(1 for v in verdicts if v & 2),
         'samples': [{'call': {k: (v if k not in ('inloglam', 'flux', 'ivar', 'newloglam') else '%d values' % len(flat(v) or []))
@@ -503,6 +759,7 @@ def correspond(ctx, proof_ok=True):
                      'impl': {'newivar_head': results[i]['newivar'][:12], 'groups': len(results[i]['fits'])}} for i in owners[:3]],
     })
     for t, i, v in zip(terms, owners, verdicts):
+        v &= 3              # bit 4: the chain model declined (no unique exact solution); counted in chain_declined
         if v == 0:
             continue
         c, r = calls[i], results[i]
